@@ -473,6 +473,61 @@ def option_handed_on_rule(index, rep, rid, modules):
     return n
 
 
+# parameters that are not read on today's tree: each one looked at - interface slots, documented-but-unimplemented options, or the
+# subject of an open finding elsewhere (Edge.invert / unify_taxon_namespaces). A NEW unread parameter is what the rule reports.
+UNREAD_PARAMETERS_TODAY = {
+    ("application.sumtrees._read_into_tree_array", "error_message_func"): "reserved slot, never used",
+    ("application.sumtrees.print_citation", "args"): "uniform command signature",
+    ("calculate.phylogeneticdistance.PhylogeneticDistanceMatrix._calculate_standardized_effect_size", "null_model_type"): "only one null model is implemented",
+    ("dataio.nexmlreader.NexmlReader._parse_tree_list", "add_to_tree_list"): "reserved slot",
+    ("dataio.nexmlwriter._to_nexml_chartype", "chartype"): "stub returning a constant",
+    ("dataio.nexmlwriter.NexmlWriter._write_edge", "is_root"): "the root edge is recognised by its missing tail node",
+    ("dataio.nexusreader.NexusReader._parse_charset_statement", "block_title"): "uniform statement-parser signature",
+    ("dataio.phylipreader.PhylipReader._parse_sequential", "line_num_start"): "reserved slot",
+    ("dataio.phylipreader.PhylipReader._parse_interleaved", "line_num_start"): "reserved slot",
+    ("datamodel.basemodel.Annotation.__init__", "label"): "accepted for interface compatibility",
+    ("datamodel.charmatrixmodel.DiscreteCharacterMatrix.taxon_state_sets_map", "gap_state"): "documented, not implemented",
+    ("datamodel.charmatrixmodel.DiscreteCharacterMatrix.taxon_state_sets_map", "no_data_state"): "documented, not implemented",
+    ("datamodel.datasetmodel.DataSet.unify_taxon_namespaces", "case_sensitive_label_mapping"): "open finding R11.4",
+    ("datamodel.datasetmodel.DataSet.attached_taxon_set_deprecation_warning", "stacklevel"): "deprecation shim",
+    ("datamodel.taxonmodel.TaxonNamespaceMapping.create_contained_taxon_mapping", "contained_taxon_label_prefix"): "documented, not implemented",
+    ("datamodel.treecollectionmodel.TreeList.consensus", "is_bipartitions_updated"): "the array route re-encodes every tree it is given",
+    ("datamodel.treecollectionmodel.SplitDistribution.split_support_iter", "node_support_attr_name"): "legacy signature",
+    ("datamodel.treecollectionmodel.SplitDistribution.split_support_iter", "edge_support_attr_name"): "legacy signature",
+    ("datamodel.treemodel._edge.Edge.invert", "update_bipartitions"): "open finding R03.4",
+    ("model.birthdeath._p_survival_constant", "massExtinctionTimes"): "constant-rate special case of a general signature",
+    ("model.birthdeath._p_survival_constant", "massExtinctionSurvivalProbabilities"): "constant-rate special case of a general signature",
+    ("model.coalescent.log_probability_of_coalescent_tree", "ultrametricity_precision"): "documented, not used",
+    ("utility.container.NormalizedBitmaskDict.pop", "alt_val"): "dict.pop signature",
+}
+
+
+def parameter_is_read_rule(index, rep, rid, modules):
+    """what a function is given, it reads: every parameter of a function with a real body is mentioned in that body -
+    a parameter that is no longer read (an option that stopped being handed on, a memo that is dropped) keeps being
+    accepted from callers and silently has no effect. Interface slots (`_read` / `_write` / `read_from_*` / `description`,
+    the copy protocol's `memo`) and the parameters listed in UNREAD_PARAMETERS_TODAY are exempt."""
+    n = 0
+    for m in modules:
+        for f in index.functions_in_module(m):
+            real = [s_ for s_ in f.node.body if not (isinstance(s_, ast.Expr) and isinstance(s_.value, ast.Constant))]
+            if not real or all(isinstance(s_, (ast.Pass, ast.Raise)) for s_ in real):
+                continue
+            if f.name in ("_read", "_write", "description") or f.name.startswith("read_from_"):
+                continue
+            names = {x.id for x in ast.walk(f.node) if isinstance(x, ast.Name)}
+            a = f.node.args
+            for p_ in [x.arg for x in a.posonlyargs + a.args + a.kwonlyargs]:
+                if p_ in ("self", "cls", "memo"):
+                    continue
+                n += 1
+                if p_ in names or (f.qualname.replace("dendropy.", "", 1), p_) in UNREAD_PARAMETERS_TODAY:
+                    continue
+                rep.check(False, rid, f.qualname, "parameter `%s` is never read" % p_, fn_where(f), "",
+                          "%s takes `%s` and never reads it: callers keep passing the option (a reader setting such as preserve_underscores, a per-call override) and it silently has no effect - whatever the function hands on to its callees runs on their defaults" % (f.qualname, p_))
+    return n
+
+
 def settings_clone_rule(index, rep, rid, modules):
     """A method that builds a new object of its own class from its own settings (two or more constructor arguments taken
     from self) passes ALL the constructor's options: one left out silently falls back to its default in the result."""
@@ -1396,6 +1451,7 @@ def generic_rules(prop, index, rep):
     with rep.section(rid):
         nw = arg_wiring_rule(index, rep, rid, mods)
         nw += option_handed_on_rule(index, rep, rid, mods)
+        nw += parameter_is_read_rule(index, rep, rid, mods)
         nw += option_handed_down_rule(index, rep, rid, mods)
         nw += settings_clone_rule(index, rep, rid, mods)
         rep.ob(rid, "src/dendropy", "%d resolved calls in the property's modules examined" % nw, True)
